@@ -281,7 +281,7 @@ def r13ab(ctx):
 
 def r13c(ctx):
     repo = ctx.repo
-    ctx.rule("R13c", "an existing style of the same family/name is deleted before the new one is appended", floor=2)
+    ctx.rule("R13c", "an existing style of the same family/name is deleted before the new one is appended; merging looks for it in the whole destination part", floor=3)
     f = repo.func("Document.insert_style")
     cfg = cfg_of(f)
     apps = [n for n in walk_no_nested(f.node) if isinstance(n, ast.Call) and call_name(n) == "append" and isinstance(n.func.value, ast.Name)
@@ -303,16 +303,38 @@ def r13c(ctx):
                    "the new style is appended without first removing an existing style of the same family and name: duplicates")
     g = repo.func("Document.merge_styles_from")
     cfgg = cfg_of(g)
-    apps = [n for n in walk_no_nested(g.node) if isinstance(n, ast.Call) and call_name(n) == "append" and isinstance(n.func.value, ast.Name)
-            and n.func.value.id == "dest"]
-    dels = [n for n in walk_no_nested(g.node) if isinstance(n, ast.Call) and call_name(n) == "delete" and "duplicate" in ast.unparse(n)]
-    ok = bool(apps) and bool(dels)
+    # the lookup of the style to be replaced: X = R.get_style(family, name)
+    looks = [a for a in walk_no_nested(g.node) if isinstance(a, ast.Assign) and isinstance(a.value, ast.Call) and call_name(a.value) == "get_style"
+             and isinstance(a.value.func, ast.Attribute) and len(a.targets) == 1 and isinstance(a.targets[0], ast.Name)]
+    apps = [n for n in walk_no_nested(g.node) if isinstance(n, ast.Call) and call_name(n) == "append" and isinstance(n.func, ast.Attribute)
+            and isinstance(n.func.value, ast.Name) and n.args and isinstance(n.args[0], ast.Name) and "manifest" not in n.func.value.id]
+    ok = bool(apps) and len(looks) == 1
+    dels = []
+    if ok:
+        dup = looks[0].targets[0].id
+        dels = [n for n in walk_no_nested(g.node) if isinstance(n, ast.Call) and call_name(n) == "delete" and (
+            (isinstance(n.func, ast.Attribute) and isinstance(n.func.value, ast.Name) and n.func.value.id == dup)
+            or any(isinstance(x, ast.Name) and x.id == dup for a_ in n.args for x in ast.walk(a_)))]
+        ok = bool(dels)
     if ok:
         tn = [n for n in cfgg.nodes if n.kind == "test" and isinstance(n.stmt, ast.If) and any(x is dels[0] for x in ast.walk(n.stmt))]
-        ok = bool(tn) and cfgg.dominates(tn[-1], node_of(cfgg, apps[0]))
-    ctx.instance("R13c", f"{g.file}:{g.ident}", "duplicate.delete() block dominates dest.append", ok=ok, nontrivial=True)
+        ok = bool(tn) and cfgg.dominates(tn[-1], node_of(cfgg, apps[0])) and cfgg.dominates(node_of(cfgg, looks[0]), tn[-1])
+    ctx.instance("R13c", f"{g.file}:{g.ident}", "the style found by the duplicate lookup is deleted on the way to the append of the merged style", ok=ok, nontrivial=True)
     if not ok:
-        ctx.report("R13c", g, g.node, "dest.append without duplicate.delete()", "merged styles are appended without removing the style they replace")
+        ctx.report("R13c", g, g.node, "append of the merged style without deleting the style it replaces", "merged styles are appended without removing the style they replace")
+        return
+    # scope of the duplicate lookup = the destination *part* (what the part's own lookup searches), neither a single container nor the whole document
+    recv = looks[0].value.func.value
+    defs = [a.value for a in walk_no_nested(g.node) if isinstance(a, (ast.Assign, ast.AnnAssign)) and a.value is not None
+            and any(isinstance(t, ast.Name) and isinstance(recv, ast.Name) and t.id == recv.id for t in (a.targets if isinstance(a, ast.Assign) else [a.target]))]
+    is_part = lambda e: isinstance(e, ast.Attribute) and isinstance(e.value, ast.Name) and e.value.id == "self" and e.attr in ("styles", "content")  # noqa: E731
+    okp = isinstance(recv, ast.Name) and bool(defs) and all(is_part(d) for d in defs)
+    what = [norm(d, 40) for d in defs] if defs else norm(recv, 40)
+    ctx.instance("R13c", f"{g.file}:{g.ident}", f"duplicate lookup runs on the destination part ({what})", ok=okp, nontrivial=True, line=looks[0].lineno)
+    if not okp:
+        ctx.report("R13c", g, looks[0], f"{norm(looks[0], 60)} — receiver defined by {what}",
+                   "merge_styles_from searches the style to replace in another scope than the destination part: narrower (one container) leaves a second style of the same "
+                   "family and name in the part, which the lookup may return instead of the merged one; wider (the document) deletes a style of the other part")
 
 
 def r13d(ctx):
@@ -436,6 +458,9 @@ from ..selftest import Seed, unparse_seed  # noqa: E402
 _DOC = "src/odfdo/document.py"
 _ST = "src/odfdo/styles.py"
 SEEDS = [
+    Seed("merge looks for the replaced style in the destination container only", "fault", _DOC, '            duplicate = part.get_style(family, stylename)\n            if duplicate is not None:\n                duplicate.delete()\n', '            duplicate = dest.get_style(family, stylename)\n            if duplicate is not None:\n                duplicate.delete()\n', "R13c"),
+    Seed("merge looks for the replaced style in the whole document", "fault", _DOC, '            duplicate = part.get_style(family, stylename)\n            if duplicate is not None:\n                duplicate.delete()\n', '            duplicate = self.get_style(family, stylename)\n            if duplicate is not None:\n                duplicate.delete()\n', "R13c"),
+    Seed("merge: replaced style renamed", "neutral", _DOC, '            duplicate = part.get_style(family, stylename)\n            if duplicate is not None:\n                duplicate.delete()\n', '            previous = part.get_style(family, stylename)\n            if previous is not None:\n                previous.delete()\n'),
     Seed("drawing-page lookup loses office:styles", "fault", _ST,
          '"drawing-page": ("//office:styles", "//office:automatic-styles"),', '"drawing-page": ("//office:automatic-styles",),', "R13a"),
     Seed("table-cell lookup loses automatic styles... of styles.xml only (still found through content)", "neutral", _ST,
